@@ -4,6 +4,9 @@ import FeatherModel.Lemmas.DiffLevels
 # `diff` then `apply` for whole mapping sets; the Boolean content equality of the driver follows from the propositional one
 -/
 
+deriving instance ReflBEq for Param
+deriving instance ReflBEq for Field
+
 namespace DiffModel
 open AList
 
@@ -22,12 +25,19 @@ theorem csrc_of_paramSrcless {a b : Mappings} (h : ParamSrcless a b) {k : JStr} 
   intro m hm p hp
   have := h (k, cb) hb m hm p hp
   simp only [methodParams] at this
-  rw [this]
   cases hla : lookup k a.classes with
-  | none => simp
+  | none =>
+    rw [hla] at this
+    simpa [lookup] using this
   | some ca =>
-    simp only
-    cases lookup m.1 ca.methods <;> simp
+    rw [hla] at this
+    simp only at this ⊢
+    cases hlm : lookup m.1 ca.methods with
+    | none => rw [hlm] at this; simpa [lookup] using this
+    | some ma =>
+      rw [hlm] at this
+      simp only at this ⊢
+      cases hlp : lookup p.1 ma.params <;> rw [hlp] at this <;> simpa using this
 
 /-- **`diff` then `apply`** on the proved domain, propositional form -/
 theorem diff_apply_eqv {a b : Mappings} {d : Diff} {n0 n1 : JStr} (wa : WF a) (wb : WF b)
@@ -98,13 +108,13 @@ theorem eqvMethod_of {m' mb : Method} (h : MethodEqv m' mb) : eqvMethod m' mb = 
   obtain ⟨h1, h2, h3, h4⟩ := h
   unfold eqvMethod
   simp only [h1, h2, h3, beq_self_eq_true, Bool.true_and]
-  exact eqvMap_of_rel (R := fun a b => a = b) (by intro x y e; subst e; simp [eqvParam]) (fun k => optRel_of_eq (h4 k))
+  exact eqvMap_of_rel (R := fun a b => a = b) (by intro x y e; subst e; exact BEq.rfl) (fun k => optRel_of_eq (h4 k))
 
 theorem eqvClass_of {c' cb : Class} (h : ClassEqv c' cb) : eqvClass c' cb = true := by
   obtain ⟨h1, h2, h3, h4⟩ := h
   unfold eqvClass
   simp only [h1, h2, beq_self_eq_true, Bool.true_and, Bool.and_eq_true]
-  exact ⟨eqvMap_of_rel (R := fun a b => a = b) (by intro x y e; subst e; simp [eqvField]) (fun k => optRel_of_eq (h3 k)),
+  exact ⟨eqvMap_of_rel (R := fun a b => a = b) (by intro x y e; subst e; exact BEq.rfl) (fun k => optRel_of_eq (h3 k)),
     eqvMap_of_rel (fun _ _ => eqvMethod_of) h4⟩
 
 theorem eqvMappings_of {r b : Mappings} (h : MappingsEqv r b) : eqvMappings r b = true := by
